@@ -77,16 +77,36 @@ func init() {
 				d3.Check()
 				s3 := stream(d3)
 				_ = s3 // after a partial read the stream legitimately continues from where it was; Check rewinds to the start
-				return stream(d0) + "//" + stream(d1) + "//" + stream(d2) + "//" + s3
+				out := stream(d0) + "//" + stream(d1) + "//" + stream(d2) + "//" + s3
+				// k events read (the scanner may hold queued events of the current step), then Rewind: the stream starts over
+				for k := 1; k <= 6; k++ {
+					d := mk(false)
+					for i := 0; i < k; i++ {
+						if _, err := d.NextLexeme(); err != nil {
+							break
+						}
+					}
+					if r, ok := d.(interface{ Rewind() }); ok {
+						r.Rewind()
+					} else {
+						d = mk(false)
+					}
+					out += "//" + stream(d)
+				}
+				return out
 			case "h", "H":
 				// history probes: Check after (1) one NextLexeme, (2) reading everything, (3) Len, (4) Check;
 				// and Len after Check. Every part must equal the result on a fresh document.
 				var parts []string
-				for _, pre := range []string{"one", "all", "len", "check"} {
+				for _, pre := range []string{"one", "two", "three", "four", "five", "all", "len", "check"} {
 					d := mk(f[0] == "H")
 					switch pre {
-					case "one":
-						d.NextLexeme()
+					case "one", "two", "three", "four", "five":
+						for i := 0; i < map[string]int{"one": 1, "two": 2, "three": 3, "four": 4, "five": 5}[pre]; i++ {
+							if _, err := d.NextLexeme(); err != nil {
+								break
+							}
+						}
 					case "all":
 						for i := 0; i < 4*len(src)+16; i++ {
 							if _, err := d.NextLexeme(); err != nil {
